@@ -127,3 +127,18 @@ def replay_arc_lemma(r):
     bad = not np.allclose(P.sum(axis=1), p, atol=1e-8) or not np.allclose(P.sum(axis=0), q, atol=1e-8) or bool(np.any(P < -1e-12))
     return {"violation": bool(bad), "detail": "n=%d m=%d: max row-marginal error %g, max column-marginal error %g" % (
         n, m, float(np.max(np.abs(P.sum(axis=1) - p))), float(np.max(np.abs(P.sum(axis=0) - q))))}
+
+
+def replay_chunk_lemma(r):
+    inp = r["inputs"]
+    R, C, cs = int(inp["row_size"]), int(inp["col_size"]), int(inp["chunk_size"])
+    R, C, cs = min(R, 40), min(C, 40), min(cs, 50)
+    rng = np.random.RandomState(0)
+    A, B = rng.normal(size=(R, 2)), rng.normal(size=(C, 2))
+    try:
+        M = chunked_pairwise_distance(A, B, dist=absdist, chunk_size=cs)
+    except Exception as e:
+        return {"violation": True, "detail": "%s: %s" % (type(e).__name__, e)}
+    E = np.array([[absdist(A[i], B[j]) for j in range(C)] for i in range(R)], dtype=np.float32).reshape(R, C)
+    bad = M.shape != E.shape or not np.allclose(M, E, rtol=1e-5, atol=1e-6)
+    return {"violation": bool(bad), "detail": "rows=%d cols=%d chunk_size=%d" % (R, C, cs)}
